@@ -1,6 +1,9 @@
 let opt = function Some v -> string_of_z v | None -> "NONE"
 let handle = function
   | ["int_pow"; w; s; b; e] -> opt (int_pow (z_of_string w) (bool_of_string s) (z_of_string b) (z_of_string e))
+  | ["int_pow_ck"; f; w; s; b; e] ->
+      (match int_pow_ck (bool_of_string f) (z_of_string w) (bool_of_string s) (z_of_string b) (z_of_string e) with
+       | PVal v -> string_of_z v | PUB -> "UB" | PFuel -> "NONE")
   | ["pow2"; n] ->
       (match pow2 (z_of_string n) with
        | P2One -> "one" | P2Long v -> "long " ^ string_of_z v | P2ULL v -> "ull " ^ string_of_z v
